@@ -13,9 +13,9 @@ UNITS = [
     Unit('embed', harness=['h_embed.cpp'], repo_units=CH + ['asmjit/core/assembler.cpp']),
 ]
 B_FIX = ' pending fixup(s) of one label, each with symbolic section (0/1), position inside its own 8-byte window, addend (all 2^64), format drawn from {x86 rel8, rel32, a64 imm26, imm19, imm14, ADR, ADRP} or relocation-carrying {embed_label 1/2/4/8, x86-32 [label]}; 24 symbolic bytes per section (field bits zero); '
-HARNESSES = [Harness('fixup', 'h_bind_%d' % k, unwind=49, bounds=str(k) + B_FIX + 'bind target section 0..3 and offset all 2^64; label id valid or beyond the table; older cross-section list empty or one entry; pool empty or one entry', mem_gb=(1, 2, 4, 8)[k], timeout=(300, 600, 900, 3600)[k], unwindset=UW_BIND,
+HARNESSES = [Harness('fixup', 'h_bind_%d' % k, unwind=49, bounds=str(k) + B_FIX + 'bind target section 0/1 and offset all 2^64; older cross-section list empty or one entry; pool empty or one entry', mem_gb=(1, 2, 4, 8)[k], timeout=(300, 600, 900, 3600)[k], unwindset=UW_BIND,
                      tiers=('quick', 'thorough') if k < 3 else ('thorough',)) for k in (0, 1, 2, 3)]
-HARNESSES += [Harness('fixup', 'h_bind_invalid', unwind=9, bounds='label id / section id in {count, count+1, 2^31, kInvalidId}; 2 pending fixups as in h_bind_2', mem_gb=4, timeout=600, unwindset=UW_BIND)]
+HARNESSES += [Harness('fixup', 'h_bind_invalid', unwind=9, bounds='label id / section id in {count, count+1, 2^31, kInvalidId}; 2 pending fixups as in h_bind_2', mem_gb=1, timeout=600, unwindset=UW_BIND)]
 HARNESSES += [Harness('fixup', 'h_bind_twice', unwind=9, bounds='label bound at any offset in section 0/1, second bind with any section 0/1 and offset', mem_gb=2, timeout=300)]
 HARNESSES += [Harness('fixup', 'h_resolve_%d' % k, unwind=49, bounds=str(k) + B_FIX + 'two bound labels at any 2^64 offset in either section; both section offsets all 2^64 (overflow of section + label inside)', mem_gb=(1, 1, 2, 4)[k], timeout=(300, 600, 900, 3600)[k],
                       tiers=('quick', 'thorough') if k < 3 else ('thorough',)) for k in (0, 1, 2, 3)]
@@ -35,10 +35,10 @@ for f, what in X86_FORMS:
     for m in ('bound', 'later', 'xsect'):
         fn = 'h_x86_%s_%s' % (f, m)
         # --unwindset may only name functions the harness reaches (unused ones are dropped and then rejected as invalid ids)
-        uw = [UW_BIND] if m == 'later' else [UW_RES] if m == 'xsect' else []
+        uw = [UW_BIND] if m == 'later' else [UW_RES] if (m == 'xsect' and f != 'mov_abs32') else []
         if f == 'mov_abs32': uw += [UW_EXPR1]   # ends with relocate_to_base
         HARNESSES.append(Harness('x86ref', fn, unwind=33, bounds=what + '; disp32 all 2^32; ' + B_X86[m] + '; cursor at byte 8 of a 32-byte buffer', mem_gb=3, timeout=1800,
-                                 unwindset=','.join(uw) or None, flags=FS, known='C03b' if m == 'xsect' else None, tiers=('quick', 'thorough') if fn in QUICK_X86 else ('thorough',)))
+                                 unwindset=','.join(uw) or None, flags=FS, known='C03b' if (m == 'xsect' and f != 'mov_abs32') else None, tiers=('quick', 'thorough') if fn in QUICK_X86 else ('thorough',)))
 A64_FORMS = [('b', 'b label'), ('bl', 'bl label'), ('bcond', 'b.eq/ne/ge/lt label'), ('cbz', 'cbz x0-15, label'), ('tbz', 'tbz x0-15, bit 0-63, label'), ('adr', 'adr x0-15, label'), ('adrp', 'adrp x0-15, label'), ('ldr_lit', 'ldr x0-15, [label, disp32]')]
 B_A64 = {'bound': 'label already bound in this section at any position below 8 GiB', 'later': 'label unbound, bound afterwards at any position below 8 GiB (bind_label patches)', 'xsect': 'label bound in another section, section offsets below 2^40 (resolve_cross_section_fixups patches)'}
 QUICK_A64 = ('h_a64_b_later', 'h_a64_tbz_bound', 'h_a64_adrp_later', 'h_a64_ldr_lit_bound', 'h_a64_cbz_xsect')
@@ -49,8 +49,13 @@ for f, what in A64_FORMS:
         HARNESSES.append(Harness('a64ref', fn, unwind=33, bounds=what + '; ' + B_A64[m] + '; cursor at byte 8 of a 32-byte buffer', mem_gb=3, timeout=1800,
                                  unwindset=','.join(uw) or None, flags=FS, known='C03b' if m == 'xsect' else None, tiers=('quick', 'thorough') if fn in QUICK_A64 else ('thorough',)))
 EXPLANATION = 'bounded symbolic execution (CBMC) of the real CodeHolder::bind_label / resolve_cross_section_fixups / new_fixup / relocate_to_base, BaseAssembler::embed_label / embed_label_delta and the reference sites of x86::Assembler::_emit / a64::Assembler::_emit compiled from /repo; the oracle decodes the patched bytes the way the CPU does (reference decoders in the harness)'
-OUTSIDE = ['more than 3 pending fixups per label (the list code is uniform in the length)', 'more than 2 sections', 'buffer growth during emission (C15)', 'Thumb/A32 formats (no A32 assembler in this tree)']
-ASSUMPTIONS = ['emitter.cpp is not linked: BaseEmitter::_report_error (counter) and BaseEmitter::is_label_valid (same one-line test) are defined in the harness; the assembler object is attached by construction',
+OUTSIDE = ['more than 3 pending fixups per label (the list code is uniform in the length)', 'more than 2 sections', 'buffer growth during emission (C15)', 'Thumb/A32 formats (no A32 assembler in this tree)',
+           'label positions of 2 GiB and more in the x86 reference-site harnesses (jmp/jcc/call to a bound label compute rel32 modulo 2^32 without a range check; buffers of that size are outside the claim), 8 GiB in the a64 ones',
+           'reference sites other than the listed forms (x86: jmp, 4 of 16 jcc, call, jecxz, loop, mov/lea/add with [label+disp]; a64: b, bl, b.cond, cbz, tbz, adr, adrp, ldr literal); register and condition fields beyond those named in the bounds',
+           'expressions deeper than 2 and 64x64-bit products inside expressions']
+ASSUMPTIONS = ['Arena::_alloc_oneshot / ArenaVector growth / CodeHolder::grow_buffer are stubs that assert they are not reached (include/ch_env.h); the arena block end is the highest address; arena objects live in a 96-byte block',
+               'reference-site harnesses: values handed over by _emit (fixup on the label, relocation entry) are asserted and then re-stated as constants (V_CONCRETIZE) before bind_label / relocate_to_base run',
+               'emitter.cpp is not linked: BaseEmitter::_report_error (counter) and BaseEmitter::is_label_valid (same one-line test) are defined in the harness; the assembler object is attached by construction',
                'label / fixup / relocation tables are built directly in static storage in the state new_label_id / new_fixup / new_reloc_entry leave them',
                'reference sites of one program never overlap (each pending fixup has its own 8-byte window)',
                'field bits of a referenced word are zero before patching (both back ends emit zero placeholders; write_offset ORs the field in)']
